@@ -462,7 +462,7 @@ def main(ctx):
             print("STALE-KNOWN-FINDING: property=C08 %s replay is no longer accepted" % key)
         ctx.total.merge(sh)
     n = 150 if quick else 2000
-    stop_at = time.time() + (75 if quick else 1500)
+    stop_at = time.time() + (75 if quick else 900)
     ctx.pmap(worker, [(ctx.seed * 100003 + i, n, known, stop_at, 5 if quick else 7) for i in range(common.NPROC)])
     ctx.rule = ("case = clause set (2-5 clauses, 1-3 patterns each: literals over {a,b}, casei, binary, closed regexes, concatenations; else absent / own "
                 "clause / combined with a pattern; greedy with priorities) in a marker harness, run on every input up to length 5 (quick) / 7 (thorough) "
